@@ -392,12 +392,14 @@ def c08_core():
         s.append(Shape(f"c08_{name}", node, "emis", {"C08": tier, "C20": T, "C03": T}, n=n, mod="pt", aims=aims, **kw))
 
     FB = lambda: To(Any(), 0xFB)
-    add("via_top", rest_after(Sp(RecVia(Tag(1, Then(Just(0), Just(1))), Sp(FB())))),
+    add("via_top", rest_after(Sp(RecVia(Tag(1, Then(Just(0), Just(1))), Sp(FB())))), content="okfail",
         aims="via_parser: transparent when p succeeds; fallback output + exactly one error otherwise; both fail => failure")
     add("via_in_or_first", rest_after(Or(Tag(1, Then(RecVia(Then(Just(0), Just(1)), FB()), Just(2))), Tag(2, Sp(Any())))),
         aims="recovery inside the first alternative, which then fails: the recovered error must vanish")
-    add("via_in_or_second", rest_after(Or(Tag(1, Then(Just(0), Then(Just(1), Just(2)))), Tag(2, RecVia(Then(Just(3), Just(4)), FB())))),
+    add("via_in_or_second", rest_after(Or(Tag(1, Then(Just(0), Then(Just(1), Just(2)))), Tag(2, RecVia(Then(Just(3), Just(4)), FB())))), content="okfail",
         aims="an earlier alternative failed further ahead: the recovered error is that one")
+    add("via_both_fail", RecVia(Then(Just(0), Just(1)), To(Then(Any(), Then(Just(2), Just(3))), 0xFB)), content="okfail",
+        aims="p fails early, the fallback fails FURTHER ahead: the combinator fails with p's error (the would-be primary error), not the fallback's")
     add("via_in_rep", rest_after(Rep(RecVia(Then(Just(0), Just(1)), To(Just(2), 0xFB)), K(0), INF)), n=4, timeout=900,
         aims="recovery inside repetition")
     add("via_under_or_not", rest_after(OrNot(RecVia(Then(Just(0), Just(1)), To(Just(2), 0xFB)))), aims="recovery under or_not")
@@ -408,7 +410,7 @@ def c08_core():
     add("skip_retry", rest_after(Sp(RecSkipRetry(Tag(1, Then(Just(0), Just(1))), Any(), Just(2)))), n=4, timeout=900,
         aims="skip_then_retry_until: retry p after each skip; give up when until matches or skip fails")
     add("skip_retry_emitting", rest_after(RecSkipRetry(Then(Validate(Just(0), 1), Just(1)), Any(), Just(2))), n=4, timeout=900,
-        tier=T, aims="only an error-free retry is accepted")
+        aims="only an error-free retry is accepted")
     add("via_n4", rest_after(Sp(RecVia(Tag(1, Then(Just(0), Then(Just(1), Just(2)))), Sp(To(Then(Any(), Any()), 0xFB))))), n=4, tier=T, timeout=1200)
     add("skip_until_n5", rest_after(Sp(RecSkipUntil(Tag(1, Then(Just(0), Just(1))), Any(), Just(2)))), n=5, tier=T, timeout=2400)
     return s
